@@ -18,6 +18,7 @@ type Event struct {
 	Mention  string // lit | var | field | param | result | recv | embedded | other
 	RecvForm bool
 	Ptr      bool
+	Open     bool // the property statement leaves this shape open: tolerated, never required
 }
 
 // Events lists what the site does, independent of any annotation.
@@ -46,6 +47,12 @@ func (s *Site) Events() []Event {
 		}
 	case "imm.recvincdec":
 		ev = append(ev, Event{Cat: "IMM", Code: "IMM03", Type: s.Type, RecvForm: true})
+	case "ptr.assign":
+		// overwrite through a pointer that is not the receiver: the statement
+		// lists only receiver overwrites, so for an immutable type this is open
+		ev = append(ev, Event{Cat: "IMM", Code: "IMM01", Type: s.Type, Open: true})
+		ev = append(ev, Event{Cat: "CTOR", Code: "CTOR01", Type: s.Type})
+		mention("lit")
 	case "lit", "litptr", "elided.slice", "elided.ptrslice", "elided.map":
 		ev = append(ev, Event{Cat: "CTOR", Code: "CTOR01", Type: s.Type})
 		mention("lit")
@@ -222,7 +229,7 @@ func ExpectIMM(p *Prog, cfg engine.Config) *Expect {
 				e.may(si.Site.ID, ev.Code)
 				continue
 			}
-			if vis == "variant" {
+			if vis == "variant" || ev.Open {
 				e.may(si.Site.ID, ev.Code)
 				continue
 			}
